@@ -1,148 +1,61 @@
-(** PruneAlgoFacts: the physical DeleteVersionsTo (PruneAlgo.v: the hash-directed double
-    traversal, the root key cache, the (v,1) -> (v,0) re-keying, the write batch with an arbitrary
-    flush schedule) refines the specification of Store.v.
+(** PruneAlgoFacts: the physical DeleteVersionsTo of nodedb.go (PruneAlgo.v) refines its
+    specification (Store.v) - summary file.
 
-    Main results (last section): for every state satisfying [store_ok] (in particular every state
-    reachable within the usage contract), every list [r] of re-keyed versions with [rekey_ok],
-    EVERY flush schedule, either flush mode, and every [n] below the latest version:
-    - [prune_refines]: the call succeeds, the final store is [phys_of (rekeyed st') f'] for the
-      remaining forest [f'], [rekey_ok] holds again, and [norm_store st' = expected_store f'];
-    - [prune_safe_at_every_moment]: every state the disk goes through reads back every retained
-      version node for node;
-    - [prune_schedule_independent]: the final store does not depend on the schedule;
-    or the hash function has a collision (two explicit different inputs with the same hash).
+    Files: PruneAlgoFacts1 (order of the maximal common subtrees of two BSTs), 2 (stores described
+    by their lookups, the physical store of a forest, safe disks), 3 (the invariant of the write
+    batch, the single writes of deleteVersion), 4 (node iterator, root key cache, the traversal
+    loop), 5 (deleteVersion), 6 (the loop over the versions), 7 (final store, reading a disk back),
+    8 (forest-level theorems for forests without look-alike nodes), 9 (look-alike nodes give a hash
+    collision), 10 (THE MAIN THEOREMS at state level, Stages 1-4, the swapped-order variant, boolean
+    checkers), 11 (Stage 6: the physical store along a history), 12 (Stage 5: effective-mode runs
+    are plain-mode runs).
 
-    Extra premises, stated explicitly: [H] returns 32 bytes, and the numbers stored in the trees
-    fit Go's int64 / key lengths are below 2^63 ([forest_bounds]).  They are used ONLY to turn a
-    pair of look-alike nodes into a collision; the theorems [*_or_confusion] do without them.
-
-    Proof structure: PruneAlgoFacts1 (order of maximal common subtrees of two BSTs),
-    2 (stores by lookups, safe disks), 3 (batch invariant, single writes), 4 (iterators, cache,
-    the traversal loop), 5 (deleteVersion), 6 (the loop over versions), 7 (final store, reading
-    back), 8 (forest-level theorems), 9 (look-alike nodes give collisions). *)
+    This file restates the main theorems in full (proofs: [exact]), prints their assumptions, and
+    evaluates them on a concrete SHA-256 history. *)
 From Coq Require Import Lia Sorted.
 From IAVL Require Import Bytes Varint Sha256 Tree VMap TreeFacts MTree MTreeFacts HashFacts
   VersionFacts Ics23Facts Store StoreFacts PruneAlgo PruneAlgoFacts1 PruneAlgoFacts2 PruneAlgoFacts3
-  PruneAlgoFacts4 PruneAlgoFacts5 PruneAlgoFacts6 PruneAlgoFacts7 PruneAlgoFacts8 PruneAlgoFacts9.
+  PruneAlgoFacts4 PruneAlgoFacts5 PruneAlgoFacts6 PruneAlgoFacts7 PruneAlgoFacts8 PruneAlgoFacts9
+  PruneAlgoFacts10 PruneAlgoFacts11 PruneAlgoFacts12.
 Local Open Scope Z_scope.
 
-(** ** What [store_ok] gives *)
-Definition forest_bounds (f : forest_t) : Prop := forall w t, In (w, Some t) f -> tbounds t.
+(** ** The statements *)
 
-Lemma store_ok_forest H s :
-  store_ok H s ->
-  forest_inv (forest s) /\ NoDup (map fst (forest s)) /\ forest_ok (forest s) (init_ver s) /\
-  (forall w t, In (w, Some t) (forest s) -> wf t) /\
-  (forall w t, In (w, Some t) (forest s) -> hash_ok H t /\ all_persisted t).
-Proof.
-  intros [SI HI C FI B]. split; [exact FI|]. split; [apply (inv_nodup s SI)|].
-  split; [apply contig_forest_ok, C|]. split.
-  - intros w t I. pose proof (inv_trees s SI) as F. rewrite Forall_forall in F.
-    specialize (F _ I). cbn [snd oinv] in F. tauto.
-  - intros w t I. pose proof (hi_forest H s HI) as F. rewrite Forall_forall in F.
-    exact (F _ I).
-Qed.
+(** Stage 1: the physical store of a forest reads every version back; so does every [disk_ok]
+    (= [safe]) store, the generalisation needed for the lagging disk *)
+Theorem PA_phys_readable :
+  forall (H : bytes -> bytes) (s : mstate) (r : list Z),
+    store_ok H s -> rekey_ok r (forest s) ->
+    readable H (phys_of r (forest s)) (forest s) = true.
+Proof. exact phys_readable. Qed.
 
-Lemma leaf_hashes_of H f :
-  (forall w t, In (w, Some t) f -> hash_ok H t /\ all_persisted t) -> leaf_hashes H f.
-Proof.
-  intros HO u (w & t & I & S). destruct (HO w t I) as [Ho Pa].
-  apply fhash_stored; [exact (hash_ok_subtree H u t S Ho)|exact (all_persisted_subtree u t S Pa)].
-Qed.
+Theorem PA_disk_ok_readable :
+  forall (H : bytes -> bytes) (f : forest_t) (d : store),
+    forest_inv f -> (forall w t, In (w, Some t) f -> wf t) -> leaf_hashes H f ->
+    disk_ok f d -> readable H d f = true.
+Proof. exact disk_ok_readable. Qed.
 
-Lemma confusion_to_collision H f :
-  (forall x, length (H x) = 32%nat) ->
-  (forall w t, In (w, Some t) f -> wf t) ->
-  (forall w t, In (w, Some t) f -> hash_ok H t /\ all_persisted t) ->
-  forest_bounds f -> confusion H f -> collision H.
-Proof.
-  intros Hlen WF HO FB (w & t & u & c & I & Su & Sc & N & E).
-  destruct (HO w t I) as [Ho Pa].
-  exact (confusion_collision H Hlen t u c (WF w t I) Ho Pa (FB w t I) Su Sc N E).
-Qed.
+(** Stage 2: one deleteVersion on the first version, any schedule, either flush mode: POk with
+    [prune_fuel], the effective result is the physical store of the rest (with the explicit list of
+    re-keyed versions [rk_next]), every disk state met is [disk_ok] for the rest *)
+Theorem PA_delete_version_first :
+  forall (H : bytes -> bytes) (f : forest_t) (iv : Z) (r : list Z) (sched : list bool) (eff : bool)
+         (v : Z) (rv rn : option node) (f'' : forest_t),
+    forest_inv f -> NoDup (map fst f) -> forest_ok f iv ->
+    (forall w t, In (w, Some t) f -> wf t) -> no_confusion H f ->
+    f = (v, rv) :: (v + 1, rn) :: f'' -> rekey_ok r f ->
+    exists p' c',
+      delete_version H (prune_fuel (phys_of r f)) v
+        (Pdb (phys_of r f) [] sched [] [] eff [] [phys_of r f]) rkc_new = (POk p', c') /\
+      let f' := (v + 1, rn) :: f'' in
+      disk (pflush p') = phys_of (rk_next v rn r) f' /\
+      Forall (disk_ok f') (dhist (pflush p')).
+Proof. exact delete_version_first. Qed.
 
-(** ** The empty forest (nothing to delete) *)
-Lemma versions_nonpos first to : to + 1 - first <= 0 -> versions_from_to first to = [].
-Proof. intros L. unfold versions_from_to. replace (Z.to_nat (to + 1 - first)) with 0%nat by lia. reflexivity. Qed.
-
-Lemma prune_forest_empty H eff r sched n :
-  n < 0 -> prune_forest H eff r [] sched n = POk ([], [], []).
-Proof.
-  intros L. unfold prune_forest, prune_phys. cbn [latest_of_forest first_of_forest fold_left].
-  replace (0 <=? n) with false by (symmetry; apply Z.leb_gt; exact L).
-  cbv zeta. rewrite versions_nonpos by lia. cbn [delete_range]. destruct eff; reflexivity.
-Qed.
-
-Lemma prune_forest_disks_empty H eff r sched n :
-  n < 0 -> prune_forest_disks H eff r [] sched n = POk [[]; []].
-Proof.
-  intros L. unfold prune_forest_disks, prune_phys_disks. cbn [latest_of_forest first_of_forest fold_left].
-  replace (0 <=? n) with false by (symmetry; apply Z.leb_gt; exact L).
-  cbv zeta. rewrite versions_nonpos by lia. reflexivity.
-Qed.
-
-(** ** Forest level, without hypotheses on the hash function *)
-Section Forest.
-  Variable H : bytes -> bytes.
-  Variable f : forest_t.
-  Variable iv : Z.
-  Hypothesis FI : forest_inv f.
-  Hypothesis ND : NoDup (map fst f).
-  Hypothesis OK : forest_ok f iv.
-  Hypothesis WF : forall w t, In (w, Some t) f -> wf t.
-
-  Theorem prune_forest_or_confusion r sched eff n :
-    rekey_ok r f -> n < latest_of_forest f ->
-    (exists st' log fl,
-       prune_forest H eff r f sched n = POk (st', log, fl) /\
-       let f' := filter (fun p => n <? fst p) f in
-       st' = phys_of (rekeyed st') f' /\ rekey_ok (rekeyed st') f' /\
-       norm_store st' = expected_store f')
-    \/ confusion H f.
-  Proof.
-    intros RK Ln. destruct (confusion_dec H f) as [NC|C]; [left|right; exact C].
-    destruct (nil_or_not f) as [->|NE].
-    - cbn in Ln. rewrite (prune_forest_empty H eff r sched n Ln). eexists _, _, _.
-      split; [reflexivity|]. cbn. split; [reflexivity|]. split; [|reflexivity].
-      split; [constructor|intros w []].
-    - exact (prune_forest_nc H f iv FI ND OK WF NC r sched eff n NE RK Ln).
-  Qed.
-
-  Theorem prune_forest_disks_or_confusion r sched eff n :
-    rekey_ok r f -> n < latest_of_forest f -> leaf_hashes H f ->
-    (exists disks,
-       prune_forest_disks H eff r f sched n = POk disks /\
-       Forall (fun d => readable H d (filter (fun p => n <? fst p) f) = true) disks)
-    \/ confusion H f.
-  Proof.
-    intros RK Ln LH. destruct (confusion_dec H f) as [NC|C]; [left|right; exact C].
-    destruct (nil_or_not f) as [->|NE].
-    - cbn in Ln. rewrite (prune_forest_disks_empty H eff r sched n Ln). eexists.
-      split; [reflexivity|]. repeat constructor.
-    - exact (prune_forest_disks_nc H f iv FI ND OK WF NC r sched eff n NE RK Ln LH).
-  Qed.
-
-  Theorem prune_forest_schedule_or_confusion r sched1 eff1 sched2 eff2 n st1 log1 fl1 st2 log2 fl2 :
-    rekey_ok r f -> n < latest_of_forest f ->
-    prune_forest H eff1 r f sched1 n = POk (st1, log1, fl1) ->
-    prune_forest H eff2 r f sched2 n = POk (st2, log2, fl2) ->
-    st1 = st2 \/ confusion H f.
-  Proof.
-    intros RK Ln E1 E2. destruct (confusion_dec H f) as [NC|C]; [left|right; exact C].
-    destruct (nil_or_not f) as [->|NE].
-    - cbn in Ln. rewrite (prune_forest_empty H _ r _ n Ln) in E1. rewrite (prune_forest_empty H _ r _ n Ln) in E2. congruence.
-    - exact (prune_forest_schedule_nc H f iv FI ND OK WF NC r sched1 eff1 sched2 eff2 n
-               st1 log1 fl1 st2 log2 fl2 NE RK Ln E1 E2).
-  Qed.
-End Forest.
-
-(** ** THE MAIN THEOREMS *)
-Section Main.
-  Variable H : bytes -> bytes.
-  Hypothesis Hlen : forall x, length (H x) = 32%nat.
-
-  (** Stage 3: the whole call refines the specification, for EVERY schedule and both flush modes *)
-  Theorem prune_refines (s : mstate) (r : list Z) (sched : list bool) (eff : bool) (n : Z) :
+(** Stage 3: THE MAIN THEOREM *)
+Theorem PA_prune_refines :
+  forall (H : bytes -> bytes), (forall x, length (H x) = 32%nat) ->
+  forall (s : mstate) (r : list Z) (sched : list bool) (eff : bool) (n : Z),
     store_ok H s -> forest_bounds (forest s) ->
     rekey_ok r (forest s) -> n < latest_version s ->
     (exists st' log fl,
@@ -151,60 +64,64 @@ Section Main.
        st' = phys_of (rekeyed st') f' /\ rekey_ok (rekeyed st') f' /\
        norm_store st' = expected_store f')
     \/ collision H.
-  Proof.
-    intros SO FB RK Ln. destruct (store_ok_forest H s SO) as (FI & ND & OK & WF & HO).
-    destruct (prune_forest_or_confusion H (forest s) (init_ver s) FI ND OK WF r sched eff n RK Ln)
-      as [A|C]; [left; exact A|right].
-    exact (confusion_to_collision H (forest s) Hlen WF HO FB C).
-  Qed.
+Proof. exact prune_refines. Qed.
 
-  (** Stage 4: what readers and crashes see: every disk state reads back every retained version *)
-  Theorem prune_safe_at_every_moment (s : mstate) (r : list Z) (sched : list bool) (eff : bool) (n : Z) :
-    store_ok H s -> forest_bounds (forest s) ->
-    rekey_ok r (forest s) -> n < latest_version s ->
-    (exists disks,
-       prune_forest_disks H eff r (forest s) sched n = POk disks /\
-       Forall (fun d => readable H d (filter (fun p => n <? fst p) (forest s)) = true) disks)
+Theorem PA_prune_refines_reachable :
+  forall (H : bytes -> bytes), (forall x, length (H x) = 32%nat) ->
+  forall (iv : Z) (b : bool) (ops : list op) (r : list Z) (sched : list bool) (eff : bool) (n : Z),
+    init_ok iv b -> run_ok H (init_state iv b) ops ->
+    let s := fst (run H (init_state iv b) ops) in
+    forest_bounds (forest s) -> rekey_ok r (forest s) -> n < version s -> n < latest_version s ->
+    (exists st' log fl,
+       prune_forest H eff r (forest s) sched n = POk (st', log, fl) /\
+       let f' := filter (fun p => n <? fst p) (forest s) in
+       st' = phys_of (rekeyed st') f' /\ rekey_ok (rekeyed st') f' /\
+       norm_store st' = expected_store f')
     \/ collision H.
-  Proof.
-    intros SO FB RK Ln. destruct (store_ok_forest H s SO) as (FI & ND & OK & WF & HO).
-    destruct (prune_forest_disks_or_confusion H (forest s) (init_ver s) FI ND OK WF r sched eff n RK Ln
-                (leaf_hashes_of H _ HO)) as [A|C]; [left; exact A|right].
-    exact (confusion_to_collision H (forest s) Hlen WF HO FB C).
-  Qed.
+Proof. exact prune_refines_reachable. Qed.
 
-  (** Corollary of Stage 3: the final store does not depend on the schedule (nor on the mode) *)
-  Theorem prune_schedule_independent (s : mstate) (r : list Z) sched1 eff1 sched2 eff2 (n : Z)
-          st1 log1 fl1 st2 log2 fl2 :
+(** the same without any hypothesis on the hash function: the alternative is an explicit pair of
+    different nodes of one tree with the same iterator hash *)
+Theorem PA_prune_forest_or_confusion :
+  forall (H : bytes -> bytes) (f : forest_t) (iv : Z),
+    forest_inv f -> NoDup (map fst f) -> forest_ok f iv -> (forall w t, In (w, Some t) f -> wf t) ->
+    forall (r : list Z) (sched : list bool) (eff : bool) (n : Z),
+      rekey_ok r f -> n < latest_of_forest f ->
+      (exists st' log fl,
+         prune_forest H eff r f sched n = POk (st', log, fl) /\
+         let f' := filter (fun p => n <? fst p) f in
+         st' = phys_of (rekeyed st') f' /\ rekey_ok (rekeyed st') f' /\
+         norm_store st' = expected_store f')
+      \/ confusion H f.
+Proof. exact prune_forest_or_confusion. Qed.
+
+(** corollary: the final store does not depend on the schedule (nor on the flush mode) *)
+Theorem PA_prune_schedule_independent :
+  forall (H : bytes -> bytes), (forall x, length (H x) = 32%nat) ->
+  forall (s : mstate) (r : list Z) (sched1 : list bool) (eff1 : bool) (sched2 : list bool) (eff2 : bool)
+         (n : Z) st1 log1 fl1 st2 log2 fl2,
     store_ok H s -> forest_bounds (forest s) ->
     rekey_ok r (forest s) -> n < latest_version s ->
     prune_forest H eff1 r (forest s) sched1 n = POk (st1, log1, fl1) ->
     prune_forest H eff2 r (forest s) sched2 n = POk (st2, log2, fl2) ->
     st1 = st2 \/ collision H.
-  Proof.
-    intros SO FB RK Ln E1 E2. destruct (store_ok_forest H s SO) as (FI & ND & OK & WF & HO).
-    destruct (prune_forest_schedule_or_confusion H (forest s) (init_ver s) FI ND OK WF r
-                sched1 eff1 sched2 eff2 n st1 log1 fl1 st2 log2 fl2 RK Ln E1 E2) as [A|C];
-      [left; exact A|right].
-    exact (confusion_to_collision H (forest s) Hlen WF HO FB C).
-  Qed.
+Proof. exact prune_schedule_independent. Qed.
 
-  (** the same for every state reachable within the usage contract *)
-  Theorem prune_refines_reachable iv b ops (r : list Z) (sched : list bool) (eff : bool) (n : Z) :
-    init_ok iv b -> run_ok H (init_state iv b) ops ->
-    let s := fst (run H (init_state iv b) ops) in
-    forest_bounds (forest s) -> rekey_ok r (forest s) -> n < version s -> n < latest_version s ->
-    (exists st' log fl,
-       prune_forest H eff r (forest s) sched n = POk (st', log, fl) /\
-       let f' := filter (fun p => n <? fst p) (forest s) in
-       st' = phys_of (rekeyed st') f' /\ rekey_ok (rekeyed st') f' /\
-       norm_store st' = expected_store f')
+(** Stage 4: safety at every moment *)
+Theorem PA_prune_safe_at_every_moment :
+  forall (H : bytes -> bytes), (forall x, length (H x) = 32%nat) ->
+  forall (s : mstate) (r : list Z) (sched : list bool) (eff : bool) (n : Z),
+    store_ok H s -> forest_bounds (forest s) ->
+    rekey_ok r (forest s) -> n < latest_version s ->
+    (exists disks,
+       prune_forest_disks H eff r (forest s) sched n = POk disks /\
+       Forall (fun d => readable H d (filter (fun p => n <? fst p) (forest s)) = true) disks)
     \/ collision H.
-  Proof.
-    intros IO R s FB RK _ Ln. apply prune_refines; auto. apply store_ok_reachable; assumption.
-  Qed.
+Proof. exact prune_safe_at_every_moment. Qed.
 
-  Theorem prune_safe_reachable iv b ops (r : list Z) (sched : list bool) (eff : bool) (n : Z) :
+Theorem PA_prune_safe_reachable :
+  forall (H : bytes -> bytes), (forall x, length (H x) = 32%nat) ->
+  forall (iv : Z) (b : bool) (ops : list op) (r : list Z) (sched : list bool) (eff : bool) (n : Z),
     init_ok iv b -> run_ok H (init_state iv b) ops ->
     let s := fst (run H (init_state iv b) ops) in
     forest_bounds (forest s) -> rekey_ok r (forest s) -> n < version s -> n < latest_version s ->
@@ -212,205 +129,76 @@ Section Main.
        prune_forest_disks H eff r (forest s) sched n = POk disks /\
        Forall (fun d => readable H d (filter (fun p => n <? fst p) (forest s)) = true) disks)
     \/ collision H.
-  Proof.
-    intros IO R s FB RK _ Ln. apply prune_safe_at_every_moment; auto.
-    apply store_ok_reachable; assumption.
-  Qed.
-End Main.
+Proof. exact prune_safe_reachable. Qed.
 
-(** ** Stage 1: reads on the physical store of a forest, and on any [safe] (lagging) disk
+(** Stage 6: the physical store along every in-contract history, all oracles *)
+Theorem PA_phys_run_reachable :
+  forall (H : bytes -> bytes), (forall x, length (H x) = 32%nat) ->
+  forall (fast : bool) (iv : Z) (b : bool) (ops : list op) (orcs : list (list bool * bool)),
+    init_ok iv b -> run_ok H (init_state iv b) ops -> bounded_run H (init_state iv b) ops ->
+    Forall phys_inv (phys_trace H fast (init_state iv b) [] ops orcs) \/ collision H.
+Proof. exact phys_run_reachable. Qed.
 
-    [disk_ok] = [safe]: every retained node is found under its key (directly or through the
-    (v,1) -> (v,0) fall-back), whatever sits under nonce 0 is the re-keyed root, every retained
-    version has its root entry.  [PruneAlgoFacts7.readable_safe] reads such a disk back. *)
-Definition disk_ok (f : forest_t) (d : store) : Prop := safe (sub_of f) f (first_of_forest f) d.
+Theorem PA_phys_step_inv :
+  forall (H : bytes -> bytes), (forall x, length (H x) = 32%nat) ->
+  forall (fast : bool) (s : mstate) (st : store) (o : op) (orc : list bool * bool),
+    store_ok H s -> in_contract s o -> forest_bounds (forest s) -> phys_inv (s, st) ->
+    phys_inv (fst (step H s o), phys_step H fast s st o orc) \/ collision H.
+Proof. exact phys_step_inv. Qed.
 
-Theorem phys_disk_ok (f : forest_t) iv r :
-  forest_inv f -> NoDup (map fst f) -> forest_ok f iv -> f <> [] -> rekey_ok r f ->
-  disk_ok f (phys_of r f).
-Proof.
-  intros FI ND OK NE [_ RK].
-  assert (Hr : forall w, In w r -> w < first_of f).
-  { intros w Iw. destruct (RK w Iw) as [A _]. rewrite first_of_forest_eq in A. exact A. }
-  destruct (ST_init f iv FI ND OK r [] false NE Hr) as [[_ P] _].
-  unfold disk_ok. rewrite first_of_forest_eq. exact (pi_disk _ _ _ _ _ _ P).
-Qed.
+(** Stage 5: a run whose schedule is indexed by the EFFECTIVE writes is the run of a schedule
+    indexed by the writes issued (one boolean per write: [false] at every ineffective deletion,
+    the next boolean of the given schedule at every effective write, [false] once it is exhausted;
+    built in [PruneAlgoFacts12.simp_pwrite]): same disk, batch, writes, effective writes and disk
+    history.  (Stages 3, 4 and 6 above are stated for both modes directly.) *)
+Theorem PA_eff_run_is_plain_run :
+  forall (H : bytes -> bytes) (fuel : nat) (vs : list Z) (st : store) (schedule : list bool) (c : rkc),
+    exists schedule',
+      twr (delete_range H fuel vs (Pdb st [] schedule [] [] true [] [st]) c)
+          (delete_range H fuel vs (Pdb st [] schedule' [] [] false [] [st]) c).
+Proof. exact eff_run_is_plain_run. Qed.
 
-Theorem disk_ok_readable H (f : forest_t) d :
-  forest_inv f -> (forall w t, In (w, Some t) f -> wf t) -> leaf_hashes H f ->
-  disk_ok f d -> readable H d f = true.
-Proof. intros FI WF LH S. exact (readable_safe H f _ d FI WF LH S). Qed.
+Theorem PA_eff_disks_plain :
+  forall (H : bytes -> bytes) (st : store) (schedule : list bool) (first latest to : Z),
+    exists schedule',
+      prune_phys_disks H true st schedule first latest to =
+      prune_phys_disks H false st schedule' first latest to.
+Proof. exact eff_disks_plain. Qed.
 
-Theorem phys_readable H (s : mstate) r :
-  store_ok H s -> rekey_ok r (forest s) -> readable H (phys_of r (forest s)) (forest s) = true.
-Proof.
-  intros SO RK. destruct (store_ok_forest H s SO) as (FI & ND & OK & WF & HO).
-  destruct (nil_or_not (forest s)) as [E|NE]; [rewrite E; reflexivity|].
-  apply disk_ok_readable; auto; [apply leaf_hashes_of, HO|].
-  exact (phys_disk_ok (forest s) (init_ver s) r FI ND OK NE RK).
-Qed.
+Theorem PA_eff_store_plain :
+  forall (H : bytes -> bytes) (st : store) (schedule : list bool) (first latest to : Z),
+    exists schedule',
+      match prune_phys H true st schedule first latest to,
+            prune_phys H false st schedule' first latest to with
+      | POk (d1, _, _), POk (d2, _, _) => d1 = d2
+      | PNoVersion, PNoVersion | PErr, PErr | PFuel, PFuel => True
+      | _, _ => False
+      end.
+Proof. exact eff_store_plain. Qed.
 
-(** ** Stage 2: one deleteVersion, for the first version of the forest, any schedule *)
-Theorem delete_version_first H (f : forest_t) iv r sched eff v rv rn f'' :
-  forest_inv f -> NoDup (map fst f) -> forest_ok f iv ->
-  (forall w t, In (w, Some t) f -> wf t) -> no_confusion H f ->
-  f = (v, rv) :: (v + 1, rn) :: f'' -> rekey_ok r f ->
-  exists p' c',
-    delete_version H (prune_fuel (phys_of r f)) v
-      (Pdb (phys_of r f) [] sched [] [] eff [] [phys_of r f]) rkc_new = (POk p', c') /\
-    let f' := (v + 1, rn) :: f'' in
-    disk (pflush p') = phys_of (rk_next v rn r) f' /\
-    Forall (disk_ok f') (dhist (pflush p')).
-Proof.
-  intros FI ND OK WF NC Ef [_ RK].
-  assert (NE : f <> []) by (rewrite Ef; discriminate).
-  assert (Hr : forall w, In w r -> w < first_of f).
-  { intros w Iw. destruct (RK w Iw) as [A _]. rewrite first_of_forest_eq in A. exact A. }
-  pose proof (ST_init f iv FI ND OK r sched eff NE Hr) as HS.
-  pose proof (forest_ok_zseq f iv OK) as Hz.
-  assert (Ev : first_of f = v) by (rewrite Ef; reflexivity). rewrite Ev in *.
-  assert (Hf : forall w t, In (w, Some t) f -> (2 * ncount t + 1 <= prune_fuel (phys_of r f))%nat).
-  { apply (fuel_ok f iv FI ND OK WF r NE). rewrite Ev. exact Hr. }
-  assert (Suf : f = [] ++ (v, rv) :: (v + 1, rn) :: f'') by exact Ef.
-  assert (Hz' : map fst ((v, rv) :: (v + 1, rn) :: f'') = zseq v (length ((v, rv) :: (v + 1, rn) :: f'')))
-    by (rewrite <- Ef; exact Hz).
-  assert (HS' : ST f (Pdb (phys_of r f) [] sched [] [] eff [] [phys_of r f]) rkc_new
-                   ((v, rv) :: (v + 1, rn) :: f'') r v) by (rewrite <- Ef; exact HS).
-  destruct (delete_version_ok H f iv FI ND OK WF NC (prune_fuel (phys_of r f)) Hf v rv rn f'' []
-              Suf Hz' _ _ r HS') as (p' & c' & E & [[Cx P] _]).
-  exists p', c'. split; [exact E|]. cbv zeta. destruct (pflush_facts p') as (Ed & _ & Eh & _).
-    rewrite Ed, Eh. split.
-    + assert (FI' : forest_inv ((v + 1, rn) :: f'')).
-      { replace ((v + 1, rn) :: f'') with (filter (fun q => v <? fst q) f).
-        - apply forest_inv_filter, FI.
-        - rewrite (filter_gt_skipn f v v Hz). replace (Z.to_nat (v + 1 - v)) with 1%nat by lia.
-          rewrite Ef. reflexivity. }
-      assert (ND' : NoDup (map fst ((v + 1, rn) :: f''))).
-      { rewrite Ef in ND. cbn [map fst] in ND |- *. inversion ND; assumption. }
-      apply (pst_ext _ _ _ (pi_V _ _ _ _ _ _ P)). apply phys_pst; assumption.
-    + unfold disk_ok. cbn [first_of_forest fst]. apply Forall_app. split.
-      * exact (pi_hist _ _ _ _ _ _ P).
-      * constructor; [|constructor]. exact (proj1 (pi_Vgood _ _ _ _ _ _ P)).
-Qed.
+(** look-alike nodes give a collision *)
+Theorem PA_confusion_collision :
+  forall (H : bytes -> bytes), (forall x, length (H x) = 32%nat) ->
+  forall (t u c : node),
+    wf t -> hash_ok H t -> all_persisted t -> tbounds t ->
+    subtree u t -> subtree c t -> u <> c -> fhash H u = fhash H c -> collision H.
+Proof. exact confusion_collision. Qed.
 
-(** ** Why the order of the two re-key writes matters: the swapped variant is refuted *)
-Definition dv_tail_swapped (version : Z) (p2 : pdb) (c2 : rkc) : pres pdb * rkc :=
-  match rkc_get c2 (disk p2) (version + 1) with
-  | (PErr, c3) => (PErr, c3)
-  | (PFuel, c3) => (PFuel, c3)
-  | (r3, c3) =>
-      let nextk := match r3 with POk k => k | _ => None end in
-      match nextk with
-      | Some nk =>
-          if keqb nk (version, 1) then
-            match get_node (disk p2) nk with
-            | None => (PErr, c3)
-            | Some root =>
-                (* SWAPPED: (version,1) is deleted BEFORE the node is written under (version,0) *)
-                let p3 := pwrite p2 (del_node (version, 1)) in
-                (POk (pwrite p3 (set_node ((version, 0), ENode root))), c3)
-            end
-          else (POk p2, c3)
-      | None => (POk p2, c3)
-      end
-  end.
-
-(** identical to [delete_version] (cf. [dv_eq]) except for [dv_tail_swapped] *)
-Definition delete_version_swapped (H : bytes -> bytes) (fuel : nat) (version : Z) (p : pdb) (c : rkc)
-  : pres pdb * rkc :=
-  match rkc_get c (disk p) version with
-  | (PErr, c1) => (PErr, c1)
-  | (PFuel, c1) => (PFuel, c1)
-  | (r, c1) =>
-      let rootk := match r with POk k => k | _ => None end in
-      match dv_step1 H fuel version p c1 rootk with
-      | (POk p1, c2) => dv_tail_swapped version (dv_p2 version rootk p1) c2
-      | (e, c2) => (e, c2)
-      end
-  end.
-
-Fixpoint delete_range_swapped (H : bytes -> bytes) (fuel : nat) (vs : list Z) (p : pdb) (c : rkc)
-  : pres pdb :=
-  match vs with
-  | [] => POk p
-  | v :: rest =>
-      match delete_version_swapped H fuel v p c with
-      | (POk p', c') => delete_range_swapped H fuel rest p' c'
-      | (e, _) => e
-      end
-  end.
-
-Definition prune_forest_disks_swapped (H : bytes -> bytes) (eff : bool) (r : list Z) (f : forest_t)
-           (schedule : list bool) (to : Z) : pres (list store) :=
-  let st := phys_of r f in
-  if latest_of_forest f <=? to then PErr
-  else
-    match delete_range_swapped H (prune_fuel st) (versions_from_to (first_of_forest f) to)
-            (Pdb st [] schedule [] [] eff [] [st]) rkc_new with
-    | POk p => POk (dhist (pflush p))
-    | PNoVersion => PNoVersion
-    | PErr => PErr
-    | PFuel => PFuel
-    end.
-
-(** ** Boolean checkers for the hypotheses (used by the examples) *)
-Definition i64b (x : Z) : bool := (- 2 ^ 63 <=? x) && (x <? 2 ^ 63).
-Definition klenb (k : bytes) : bool := (N.of_nat (length k) <? 2 ^ 63 - 1)%N.
-Fixpoint tboundsb (t : node) : bool :=
-  match t with
-  | Leaf k _ m => i64b (ver m) && klenb k
-  | Inner _ h s m l r => i64b h && i64b s && i64b (ver m) && tboundsb l && tboundsb r
-  end.
-Definition forest_boundsb (f : forest_t) : bool :=
-  forallb (fun p => match snd p with Some t => tboundsb t | None => true end) f.
-
-Lemma i64b_sound x : i64b x = true -> i64 x.
-Proof. unfold i64b, i64. rewrite andb_true_iff, Z.leb_le, Z.ltb_lt. tauto. Qed.
-
-Lemma tboundsb_sound t : tboundsb t = true -> tbounds t.
-Proof.
-  induction t as [k v m|k h s m l IHl r IHr]; cbn [tboundsb tbounds]; rewrite ?andb_true_iff.
-  - intros [A B]. split; [apply i64b_sound, A|]. unfold klenb in B. apply N.ltb_lt in B. exact B.
-  - intros [[[[A B] C] D] E]. split; [apply i64b_sound, A|]. split; [apply i64b_sound, B|].
-    split; [apply i64b_sound, C|]. split; [apply IHl, D|apply IHr, E].
-Qed.
-
-Lemma forest_boundsb_sound f : forest_boundsb f = true -> forest_bounds f.
-Proof.
-  unfold forest_boundsb. rewrite forallb_forall. intros F w t I. specialize (F _ I). cbn [snd] in F.
-  apply tboundsb_sound, F.
-Qed.
-
-Fixpoint ascb (l : list Z) : bool :=
-  match l with
-  | [] => true
-  | a :: rest => forallb (fun b => a <? b) rest && ascb rest
-  end.
-
-Definition rekey_okb (r : list Z) (f : forest_t) : bool :=
-  ascb r &&
-  forallb (fun w => (w <? first_of_forest f) &&
-                    existsb (fun p => match snd p with
-                                      | Some t => mhas kcmp (w, 1) (nodes_of t)
-                                      | None => false
-                                      end) f) r.
-
-Lemma ascb_sound l : ascb l = true -> StronglySorted Z.lt l.
-Proof.
-  induction l as [|a l IH]; cbn [ascb]; [constructor|]. rewrite andb_true_iff. intros [A B].
-  constructor; [auto|]. rewrite forallb_forall in A. apply Forall_forall. intros b Ib.
-  apply Z.ltb_lt, A, Ib.
-Qed.
-
-Lemma rekey_okb_sound r f : rekey_okb r f = true -> rekey_ok r f.
-Proof.
-  unfold rekey_okb. rewrite andb_true_iff. intros [A B]. split; [apply ascb_sound, A|].
-  rewrite forallb_forall in B. intros w Iw. specialize (B w Iw). apply andb_prop in B.
-  destruct B as [B1 B2]. split; [apply Z.ltb_lt, B1|].
-  apply existsb_exists in B2. destruct B2 as ([v [t|]] & I & M); cbn [snd] in M; [|discriminate].
-  apply mhas_true in M. destruct M as [sn M]. apply (In_mfind kcmp kcmp_ok) in M.
-  apply nodes_of_In in M. destruct M as (u & S & K & _). exists u. split; [exists v, t; auto|auto].
-Qed.
+Print Assumptions PA_phys_readable.
+Print Assumptions PA_disk_ok_readable.
+Print Assumptions PA_delete_version_first.
+Print Assumptions PA_prune_refines.
+Print Assumptions PA_prune_refines_reachable.
+Print Assumptions PA_prune_forest_or_confusion.
+Print Assumptions PA_prune_schedule_independent.
+Print Assumptions PA_prune_safe_at_every_moment.
+Print Assumptions PA_prune_safe_reachable.
+Print Assumptions PA_phys_run_reachable.
+Print Assumptions PA_phys_step_inv.
+Print Assumptions PA_confusion_collision.
+Print Assumptions PA_eff_run_is_plain_run.
+Print Assumptions PA_eff_disks_plain.
+Print Assumptions PA_eff_store_plain.
 
 (** ** Examples (SHA-256): five versions: a one-leaf version, a commit without writes, inserts,
     a removal, an overwrite; a first deletion (to version 1) re-keys root (1,1); the second
@@ -439,33 +227,40 @@ Proof. vm_compute. repeat split; try reflexivity; try lia; discriminate. Qed.
 
 (** first deletion: the root of version 1 is re-keyed ((1,0) written, then (1,1) deleted) *)
 Example pa_first_deletion :
-  exists st' log fl,
-    prune_forest sha256 false [] pa_f pa_sched1 1 = POk (st', log, fl) /\
-    log = [set_node ((1, 0), ENode (SLeaf pa_a pa_a)); del_node (1, 1)] /\ fl = [1%nat] /\
-    rekeyed st' = [1] /\ st' = phys_of [1] pa_f1 /\ norm_store st' = expected_store pa_f1.
-Proof. eexists _, _, _. vm_compute. repeat split; reflexivity. Qed.
+  match prune_forest sha256 false [] pa_f pa_sched1 1 with
+  | POk (st', log, fl) =>
+      log = [set_node ((1, 0), ENode (SLeaf pa_a pa_a)); del_node (1, 1)] /\ fl = [1%nat] /\
+      rekeyed st' = [1] /\ st' = phys_of [1] pa_f1 /\ norm_store st' = expected_store pa_f1
+  | _ => False
+  end.
+Proof. vm_compute. repeat split; reflexivity. Qed.
 
 (** second deletion, [r = [1]]: versions 2 and 3 go; the computed result agrees with
-    [prune_refines]; the re-keyed root (1,1) is an orphan of version 3 and disappears *)
+    [prune_refines]; the re-keyed root (1,1) is an orphan of version 3: it is asked for under
+    (1,1), so both (1,1) (absent) and (1,0) are deleted *)
 Example pa_second_deletion :
-  exists st' log fl,
-    prune_forest sha256 false [1] pa_f1 pa_sched2 3 = POk (st', log, fl) /\
-    (let f' := filter (fun p => 3 <? fst p) pa_f1 in
-     st' = phys_of (rekeyed st') f' /\ rekey_okb (rekeyed st') f' = true /\
-     norm_store st' = expected_store f') /\
-    map fst st' = [(3, 2); (3, 3); (3, 4); (4, 1); (5, 1); (5, 2); (5, 3); (5, 4)] /\
-    log = [del_node (2, 1); del_node (3, 1); del_node (1, 1); del_node (1, 0)] /\
-    fl = [0%nat; 2%nat; 3%nat] /\ rekeyed st' = [].
-Proof. eexists _, _, _. vm_compute. repeat split; reflexivity. Qed.
+  match prune_forest sha256 false [1] pa_f1 pa_sched2 3 with
+  | POk (st', log, fl) =>
+      (let f' := filter (fun p => 3 <? fst p) pa_f1 in
+       st' = phys_of (rekeyed st') f' /\ rekey_okb (rekeyed st') f' = true /\
+       norm_store st' = expected_store f') /\
+      map fst st' = [(3, 2); (3, 3); (3, 4); (4, 1); (5, 1); (5, 2); (5, 3); (5, 4)] /\
+      log = [del_node (2, 1); del_node (3, 1); del_node (1, 1); del_node (1, 0)] /\
+      fl = [0%nat; 2%nat; 3%nat] /\ rekeyed st' = []
+  | _ => False
+  end.
+Proof. vm_compute. repeat split; reflexivity. Qed.
 
 (** Stage 4 on the example: every disk state reads every retained version back; and the final
     store is the same for another schedule and the other flush mode *)
 Example pa_disks :
-  exists disks,
-    prune_forest_disks sha256 false [1] pa_f1 pa_sched2 3 = POk disks /\
-    length disks = 5%nat /\
-    forallb (fun d => readable sha256 d (filter (fun p => 3 <? fst p) pa_f1)) disks = true.
-Proof. eexists. vm_compute. repeat split; reflexivity. Qed.
+  match prune_forest_disks sha256 false [1] pa_f1 pa_sched2 3 with
+  | POk disks =>
+      length disks = 5%nat /\
+      forallb (fun d => readable sha256 d (filter (fun p => 3 <? fst p) pa_f1)) disks = true
+  | _ => False
+  end.
+Proof. vm_compute. split; reflexivity. Qed.
 
 Example pa_schedule_independent :
   match prune_forest sha256 false [1] pa_f1 pa_sched2 3, prune_forest sha256 true [1] pa_f1 [] 3,
@@ -502,16 +297,19 @@ Qed.
     which version 2 cannot be read (its reference (1,1) resolves neither directly nor through the
     fall-back to (1,0)).  The faithful order passes on the same input. *)
 Theorem rekey_order_matters_refuted :
-  exists (f : forest_t) (r : list Z) (sched : list bool) (n : Z) (disks : list store),
+  exists (f : forest_t) (r : list Z) (sched : list bool) (n : Z),
     rekey_okb r f = true /\ n < latest_of_forest f /\
-    prune_forest_disks_swapped sha256 false r f sched n = POk disks /\
-    existsb (fun d => negb (readable sha256 d (filter (fun p => n <? fst p) f))) disks = true /\
+    match prune_forest_disks_swapped sha256 false r f sched n with
+    | POk disks =>
+        existsb (fun d => negb (readable sha256 d (filter (fun p => n <? fst p) f))) disks = true
+    | _ => False
+    end /\
     match prune_forest_disks sha256 false r f sched n with
     | POk good => forallb (fun d => readable sha256 d (filter (fun p => n <? fst p) f)) good = true
     | _ => False
     end.
 Proof.
-  exists pa_f, [], [false; true], 1. eexists. vm_compute. repeat split; reflexivity.
+  exists pa_f, [], [false; true], 1. vm_compute. repeat split; reflexivity.
 Qed.
 
 (** the swapped variant differs from the model in nothing else: without a flush between the two
@@ -523,11 +321,35 @@ Example swapped_same_without_flush :
   end.
 Proof. vm_compute. reflexivity. Qed.
 
-Print Assumptions prune_refines.
-Print Assumptions prune_safe_at_every_moment.
-Print Assumptions prune_schedule_independent.
-Print Assumptions prune_refines_reachable.
-Print Assumptions prune_safe_reachable.
-Print Assumptions phys_readable.
-Print Assumptions delete_version_first.
+
+(** Stage 6 on the example: the physical store after every step of the history, two deletions
+    included (schedules and flush modes from the oracle list) *)
+Example pa_history_trace :
+  let ops := pa_hist ++ [OPrune 1; OSet pa_a pa_b; OSave; OPrune 3; OLvfo 5] in
+  let orcs := repeat ([true; false; true], false) 11 ++ [(pa_sched1, false); ([], false); ([], false);
+                (pa_sched2, true); ([], false)] in
+  let tr := phys_trace sha256 true (init_state 0 false) [] ops orcs in
+  run_okb sha256 (init_state 0 false) ops = true /\
+  forallb (fun p => match snd p with [] => true | _ =>
+                      readable sha256 (snd p) (forest (fst p)) end) tr = true /\
+  map (fun p => rekeyed (snd p)) tr =
+    [[]; []; []; []; []; []; []; []; []; []; []; []; [1]; [1]; [1]; []; []] /\
+  map snd tr = map (fun p => phys_of (rekeyed (snd p)) (forest (fst p))) tr.
+Proof. vm_compute. repeat split; reflexivity. Qed.
+
+(** Stage 5 on the example: in the second deletion the third write (deleting (1,1), absent) is
+    ineffective; the effective-mode schedule [true; true; true] is the plain schedule
+    [true; true; false; true] *)
+Example pa_eff_plain :
+  prune_forest_disks sha256 true [1] pa_f1 [true; true; true] 3 =
+  prune_forest_disks sha256 false [1] pa_f1 [true; true; false; true] 3 /\
+  match prune_forest sha256 true [1] pa_f1 [true; true; true] 3,
+        prune_forest sha256 false [1] pa_f1 [true; true; false; true] 3 with
+  | POk (d1, elog1, fl1), POk (d2, wlog2, fl2) =>
+      d1 = d2 /\ length elog1 = 3%nat /\ length wlog2 = 4%nat /\
+      fl1 = [0%nat; 1%nat; 2%nat] /\ fl2 = [0%nat; 1%nat; 3%nat]
+  | _, _ => False
+  end.
+Proof. vm_compute. repeat split; reflexivity. Qed.
+
 Print Assumptions rekey_order_matters_refuted.
